@@ -577,7 +577,7 @@ def load_program(repo='/repo', with_tools=True, with_mbedtls=False, use_cache=Tr
                 # keep the cache small: drop all but the 6 newest entries
                 ents = sorted((os.path.getmtime(os.path.join(_cache_dir(), f)), f)
                               for f in os.listdir(_cache_dir()) if f.endswith('.pkl'))
-                for _, f in ents[:-6]:
+                for _, f in ents[:-int(os.environ.get('VERIF_CACHE_KEEP', '6')):]:
                     try:
                         os.unlink(os.path.join(_cache_dir(), f))
                     except OSError:
